@@ -30,6 +30,43 @@ T = {
          'truncate / metadata change on Array and RaggedArray; oracle = fresh open raises or shows before / after / original + whole chunks.',
          'Outside: power loss and page-cache reordering (F-crash), a second crash, crashes inside creation. Replay: line-granular snapshots of the real run + synthesized torn files.'),
 }
+T.update({
+ 'C01': ('asarray for each input form (ndarray in C / F / strided layout, nested sequence, scalar, iterator of chunks, Darr Array) with symbolic '
+         'length and chunklen, dtype argument, and create_array with fill / fillfunc; compared with the NumPy reference on the returned handle, a '
+         'fresh handle and the independent decoder; rejected element types leave the FS snapshot unchanged; 13x2 dtype table with the real NumPy.',
+         'Outside: more than F chunks per call; bit patterns of special values (N-bits); zero-length trailing axes.'),
+ 'C02': ('every completed operation of the C01 / C03 harness families plus metadata create/delete and overwrite=True re-creation is followed by an '
+         'independent decoder (documented format only, ground-truth byte order) that must reproduce what the Darr API reports.',
+         'Outside: as C01 / C03.'),
+ 'C08': ('README generation NOT stubbed: after each operation the text in the model FS is compared token-wise (literal parts equal, numbers equal as '
+         'terms, decided by z3) with readcodetxt(fresh handle) for Array, RaggedArray, values/ and indices/; ragged K in {0,1,5,6} (thorough 0..7).',
+         'Outside: line-wrapping positions (layout).'),
+ 'C12': ('sequences of two accesses (read / write with an opaque index token of symbolic validity, first-axis slices and ints with symbolic bounds) inside '
+         'or outside one open_array() context, followed by later file changes; results must be detached (a view of a closed map raises UseAfterUnmap in the '
+         'model), equal to reference[idx], durable, and no file object / map may stay open.',
+         'Outside: NumPy own evaluation of index expressions (N-index); two consecutive symbolic slice assignments.'),
+ 'C14': ('E1: real fit_frames over ALL integers, real iterindices with every parameter symbolic (trip count bounded by the precondition), real iterchunks on '
+         'the model array (detached copies, tiling). E2: lemmas generated from the AST of fit_frames / iterindices as SMT-LIB2, unsat required from z3 4.8.12, '
+         'z3 5.1 and cvc5 1.0.3 (unbounded, no unrolling); translator validated against the real function on the repository test triples and a grid.',
+         'Outside: more than KMAX full frames per iterindices call in E1 (E2 lemmas are unbounded).'),
+ 'C15': ('Array.copy / RaggedArray.copy with symbolic lengths (length-0 sources and ragged arrays without subarrays included), target dtypes, nested metadata and '
+         'one post-copy mutation on either side; archive(): what Darr decides (name, mode, compression types, arcname, refusal) against a tarfile model.',
+         'Outside: byte identity after extraction (N-tar; exercised in replay with real archives).'),
+ 'C16': ('delete_array / delete_raggedarray with 0..2 foreign nodes (file, dir, dir with file, symlink to file / dir, directory named like a Darr file) at top / '
+         'values / indices; non-Darr targets; each of the 7 creating functions on each previous occupant with overwrite symbolic/split; FS snapshot algebra.',
+         'Outside: hard links, mount points, symlinks named like a Darr file.'),
+ 'C18': ('one corrupted descriptor field at a time (30 token classes) x {Array, ragged values, ragged indices}; data length off by ANY non-zero delta; two-axis '
+         'shapes with a negative extent and any file length; oracle: every opener raises, delete/truncate by path raise TypeError and the snapshot is unchanged.',
+         'Relies on N-memmap (negative / bool dims rejected), probed against the installed NumPy in the conformance step. Outside: pairs of corrupted fields (quick).'),
+ 'C19': ('ALL well-formed schedules of L actions (quick 3, thorough 4) over two iterchunks generators, two nested open_array() contexts, reads and writes, '
+         'completed by finishing the survivors in either order; schedules enumerated by the runner, array and chunk lengths symbolic; oracle: no use of an '
+         'unmapped map, chunks/reads equal the contents at that moment, writes durable, nothing left open. Replay: child process on a multi-MB array, SIGSEGV observed.',
+         'Outside: three generators, longer schedules.'),
+ 'C20': ('the file-name argument is a symbolic str (|f| <= 4 quick / 5 thorough over {a, b, ., /}), as str or Path, through 12 public writer entry points of a DataDir '
+         'protecting {file a, directory b}; the model FS own kernel-style resolution decides whether the spelling denotes a protected node; protected nodes must be '
+         'unchanged in every case and OSError raised when the target is protected; user-file round trip and the constituent names of Array / RaggedArray concretely.',
+         'Outside: longer names, symlinked directories, case-folding file systems.'),
+})
 CHECKS = {k: dict(text=E1 + v[0], note=BASE_NOTE + v[1]) for k, v in T.items()}
 PENDING = 'check under construction in this session (see DESIGN.md section 4); not claimed until it runs clean'
 NOT_APPLICABLE = {f'C{i:02d}': PENDING for i in range(1, 21) if f'C{i:02d}' not in CHECKS}
